@@ -6,7 +6,7 @@ from ..summary import Item, items, is_ok, bv
 from .c03 import base_assume
 
 ID = 'C01'
-ENGINE_B = {'template': 't_layout', 'kinds': ['layout_'], 'max_quick': 8, 'max_thorough': 48}
+ENGINE_B = {'template': 't_layout', 'kinds': ['layout_'], 'max_quick': 12, 'max_thorough': 64}
 EXPLANATION = ('t_layout run symbolically; on every accepted leaf the region list pyxis produced is laid out with an SMT model of '
                'repr(C) (each field at align_up(previous end, field alignment); struct alignment = declared; packed => 1) and '
                'the solver must refute: a named field missing from the struct, a named field at an offset different from its '
